@@ -50,6 +50,7 @@ var Atoms = []string{
 	// IPv6 shapes
 	"::", "[::1]", "[1:2:3:4:5:6:7:8]", "[::1.2.3.4]", "[1::]", "[1::8]", "[0:0:1:0:0:0:1:0]", "[::ffff:1.2.3.4]", "[1:2:3:4:5:6:7]",
 	"[1:2:3:4:5:6:7:8:9]", "[:1]", "[1:]", "[::1", "::1]", "[[::1]]", "[::1]]", "[::1]:80", "[g::1]", "[1::2::3]", "[::1.2.3]", "[::01.2.3.4]", "[::1.2.3.256]", "[]", "[::FFFF]",
+	"[1:2:3:4:5:6:1.2.3.4.5]", "[1:2:3:4:5:6:7:8:]", "[1:2:3:4:5:6:7:8.9]", "[1:2:3:4:5:6:1.2.3.4:5]",
 	// hosts
 	"localhost", "LOCALHOST", "example.com", "EXAMPLE.COM", "h", "a.b", "a..b", "a.b.", ".", "xn--", "XN--nxasmq6b", "xn--a", "xn--ls8h", "www.",
 	"é", "ß", "ǆ", "ﬁ", "０", "。", "．", "≠", "\u00ad", "\u200c", "\u200d", "א", "١", "💩", "\ufdd0", "\uffff", "\ufffd", "\U0010ffff", "\u2028", "\u00a0", "\u3000", "ｅｘ",
@@ -83,7 +84,8 @@ var otherSchemes = []string{"foo", "a", "x-y.z+1", "git+ssh", "data", "mailto", 
 
 var hostDomains = []string{"example.com", "h", "a.b.c", "EXAMPLE.org", "localhost", "www.example.com.", "xn--nxasmq6b.com", "faß.de", "日本語.jp", "a_b", "a-b.c-d", "x", "test", "ex%41mple.com", "%65xample", "Ｇｏ.com", "a.b..c", "-a-", "1a", "a1.2b"}
 var hostIPv4 = []string{"1.2.3.4", "127.0.0.1", "0x7f.1", "017.0.0.1", "4294967295", "0xffffffff", "1.2.3", "1.256", "256.1.1.1", "1.2.3.4.5", "1.2.3.4.", "0x", "0x.0x", "08", "1.2.3.08", "0300.0250.0.01", "999999999999", "1..2.3", "0XaBc", "1.0x", "%31.2.3.4", "１.2.3.4", "a.1", "a.0x1", "a.1.", "1.a", "+1", "-1", "0x-1", "1.2.3.+4"}
-var hostIPv6 = []string{"[::1]", "[1:2:3:4:5:6:7:8]", "[::]", "[1::]", "[::1.2.3.4]", "[0:0:0:0:0:0:0:0]", "[1:0:0:2:0:0:0:3]", "[1:0:0:0:2:0:0:3]", "[A:b::C]", "[0001:0::1]", "[::ffff:c0a8:1]", "[1:2:3:4:5:6:1.2.3.4]", "[1:2:3:4:5:6:7]", "[1:2:3:4:5:6:7:8:9]", "[:1]", "[1::2::3]", "[12345::]", "[::g]", "[::1.2.3]", "[::1.2.3.4.5]", "[::01.2.3.4]", "[::1.2.3.256]", "[1:2:3:4:5:6:7:1.2.3.4]", "[::1", "[[::1]]", "[::1]]", "[]", "[::%31]", "[::1]x", "[1:2:3:4:5:6::7:8]", "[1::8:]", "[0:0:1:0:0:1:0:0]"}
+var hostIPv6 = []string{"[::1]", "[1:2:3:4:5:6:7:8]", "[::]", "[1::]", "[::1.2.3.4]", "[0:0:0:0:0:0:0:0]", "[1:0:0:2:0:0:0:3]", "[1:0:0:0:2:0:0:3]", "[A:b::C]", "[0001:0::1]", "[::ffff:c0a8:1]", "[1:2:3:4:5:6:1.2.3.4]", "[1:2:3:4:5:6:7]", "[1:2:3:4:5:6:7:8:9]", "[:1]", "[1::2::3]", "[12345::]", "[::g]", "[::1.2.3]", "[::1.2.3.4.5]", "[::01.2.3.4]", "[::1.2.3.256]", "[1:2:3:4:5:6:7:1.2.3.4]", "[::1", "[[::1]]", "[::1]]", "[]", "[::%31]", "[::1]x", "[1:2:3:4:5:6::7:8]", "[1::8:]", "[0:0:1:0:0:1:0:0]",
+	"[1:2:3:4:5:6:1.2.3.4.5]", "[1:2:3:4:5:6:1.2.3.4.]", "[1:2:3:4:5:6:1.2.3.4:5]", "[1:2:3:4:5:6:7:8:]", "[1:2:3:4:5:6:7:8.]", "[1:2:3:4:5:6:7:8.9]", "[1:2:3:4:5:6:7::]", "[::1:2:3:4:5:6:7:8]", "[1:2:3:4:5:6:7:8::]", "[1:2:3:4:5:6:255.255.255.255.255]", "[::1.2.3.4.5.6.7.8]"}
 var hostBad = []string{"", "a b", "a<b", "a>b", "a^b", "a|b", "a%b", "a%00b", "%", "a\x7fb", "a\x00b", "a%2Fb", "a%3Ab", "a%40b", "a%5Bb", "\xff", "%ff", "%C3", "xn--", "xn--a.b", "a%23b", "a%3Fb", "a%5Cb", "a%20b", "a%7Cb", " ", "%00"}
 var userinfos = []string{"u@", "u:p@", ":p@", "u:@", ":@", "@", "u%40:p%3A@", "us er:pa ss@", "a:b:c@", "a@b@", "é:ü@", "%@", "u;v=1:p/?@", "[u]:{p}@", "\x00:\x7f@", "u\\:p@"}
 var ports = []string{"", ":", ":80", ":443", ":21", ":0", ":8080", ":00080", ":65535", ":65536", ":99999999999999999999", ":8a", ":-1", ":+1", ": 80", ":80 ", ":0x50", ":٨٠"}
@@ -378,7 +380,7 @@ func BaseString(t *rapid.T, label string) string {
 }
 
 // ExtremeStarts are structurally extreme parseable URLs.
-var ExtremeStarts = []string{"a:b", "a:b ?q#f", "a:b  #f", "a: ", "foo://", "foo://h", "foo:/.//p", "foo:/p", "foo:///x", "foo://h/p?q#f", "file:///C:/", "file:///C:/a/b", "file://h/C|/", "file:///", "file:", "file://h",
+var ExtremeStarts = []string{"a:b", "a:b ?q#f", "a:b  #f", "a: ", "data:x ?", "a:b ?#", "a:b  ?&&", "a:b ?&#f", "foo:o  ?=", "foo://", "foo://h", "foo:/.//p", "foo:/p", "foo:///x", "foo://h/p?q#f", "file:///C:/", "file:///C:/a/b", "file://h/C|/", "file:///", "file:", "file://h",
 	"file:///c:/..", "http://u:p@h:81/p?q#f", "https://1.2.3.4/", "http://[::1]:8/", "http://h", "http://h/a/b/c/d?x#y", "ws://h:81/", "wss://u@h/", "ftp://h:22/p", "http://h/?", "http://h/#", "http://h/?#",
 	"data:text/plain,hi", "mailto:a@b", "javascript:alert(1) ", "blob:http://h/x", "about:blank", "sc://é/", "sc:// /", "non-special:x/?#", "a:/", "a://", "a:/.//", "a:/..//x", "http://xn--nxasmq6b/", "http://h//a//", "file:///C|/x", "foo://h:0/", "http://h:0/"}
 
